@@ -368,6 +368,25 @@ def check_case(case, ctx):
             return
         if [r['id'] for r in want['regions']] != [f'r{i + 1}' for i in range(len(want['regions']))]:
             ctx.nontrivial((str(case['regions']), str(case['ro']), case['via']), 'reading-order-permutes')
+        # history: the page object that has just been exported has its region list re-arranged (the reading order stays) and is exported again
+        if len(page.regions) >= 2 and case['via'] == 'string':
+            page.regions = list(page.regions)[::-1]
+            sb = page.to_pagexml_string(version=ver)
+            ctx.executed()
+            written = [e.get('id') for e in ET.fromstring(sb.encode('utf-8')).iter(ns + 'TextRegion')]
+            rank = {k: v for k, v in case['ro']}
+            rev = [r['id'] for r in want['regions']]          # (the list as it stood after the first export) ...
+            rev = rev[::-1]                                    # ... reversed; listed regions by index, the unlisted ones behind them in list order
+            demanded = sorted([i for i in rev if i in rank], key=lambda i: rank[i]) + [i for i in rev if i not in rank]
+            if len(set(rank.values())) != len(rank):
+                demanded = written                              # equal indexes: their mutual order is not determined
+            if written != demanded:
+                ctx.violation('regions-written-in-reading-order', f'{K}/reading-order-not-applied/second-export-of-a-rearranged-page',
+                              f'{desc}: after a first export the region list was reversed (reading order unchanged); the second export writes the '
+                              f'regions as {written}, the reading order demands {demanded}')
+                return
+            if demanded != rev:
+                ctx.tag('page-exported-again-after-its-regions-were-rearranged')
     # fixpoint
     s2 = p2.to_pagexml_string(version=ver)
     # history: editing a loaded page in place must not influence a later import of the same document
@@ -419,5 +438,5 @@ def describe(tier):
                       'confidences': [str(c) for c in CONFS], 'indexes': [str(i) for i in INDEXES], 'region_types': [str(t) for t in RTYPES],
                       'region_texts': [repr(t) for t in RTEXTS], 'page_ids': PIDS},
         'assumptions': ['a reading order of None and an empty one are equivalent', 'conf is only stored together with a transcription'],
-        'min_nontrivial': 100, 'required_tags': ['more-than-nine-regions-and-lines', 'other-point-containers', 'reading-order-permutes', 'two-or-more-non-default-fields'],
+        'min_nontrivial': 100, 'required_tags': ['page-exported-again-after-its-regions-were-rearranged', 'more-than-nine-regions-and-lines', 'other-point-containers', 'reading-order-permutes', 'two-or-more-non-default-fields'],
     }
